@@ -4,7 +4,6 @@ import (
 	"go/ast"
 )
 
-func (g *Gen) verifyClosure(b *Block) { g.errorf("closure contracts not implemented yet: %s", b.ID()) }
 func (g *Gen) tables(id string)                                  {}
 func (g *Gen) thoroughExtras(id string, obls *[]*Obligation, work string) {}
 func runSelftest(args []string) int { return 2 }
